@@ -2710,6 +2710,7 @@ setattr_delegate(
         }
 
         if (++i >= 100) {
+            Py_DECREF(daname);
             return delegation_recursion_error(obj, name);
         }
     }
@@ -2736,6 +2737,7 @@ setattr_property0(
         return -1;
     }
     result = PyObject_Call(traitd->delegate_prefix, args, NULL);
+    Py_DECREF(args);
     if (result == NULL) {
         return -1;
     }
